@@ -55,6 +55,7 @@ type Destination struct {
 	// set in/via Run()
 	In                  chan []byte        `json:"-"` // incoming metrics
 	shutdown            chan bool          // signals shutdown internally
+	stopped             chan struct{}      // closed once relay() has exited and nothing reads In anymore
 	spool               *Spool             // queue used if spooling enabled
 	connUpdates         chan *Conn         // channel for newly created connection. It replaces any previous connection
 	inConnUpdate        chan bool          // to signal when we start a new conn and when we finish
@@ -190,6 +191,7 @@ func (dest *Destination) Run() {
 	}
 	dest.In = make(chan []byte)
 	dest.shutdown = make(chan bool)
+	dest.stopped = make(chan struct{})
 	dest.connUpdates = make(chan *Conn)
 	dest.inConnUpdate = make(chan bool)
 	dest.flush = make(chan bool)
@@ -210,6 +212,17 @@ func (dest *Destination) Run() {
 	}
 	dest.tasks = sync.WaitGroup{}
 	go dest.relay()
+}
+
+// Send hands a metric to the destination.
+// If the destination has been shut down in the meantime (its route, or the destination itself, was
+// deleted while the caller still works with the configuration it loaded before that change)
+// the metric is discarded instead of blocking the caller forever.
+func (dest *Destination) Send(buf []byte) {
+	select {
+	case dest.In <- buf:
+	case <-dest.stopped:
+	}
 }
 
 func (dest *Destination) Flush() error {
@@ -352,6 +365,8 @@ func (dest *Destination) relay() {
 				dest.flushErr <- nil
 			}
 		case <-dest.shutdown:
+			// from here on nothing reads In anymore: release callers that still hold this destination
+			close(dest.stopped)
 			log.Infof("dest %v shutting down. flushing and closing conn", dest.Key)
 			if conn != nil {
 				conn.Flush()
